@@ -116,13 +116,16 @@ def check(pid, tier, replay=None):
     text = '\n'.join(lines) + '\n'
     rc1, a, ea = sh([os.path.join(BIN, 'ptr_diff_dbg')], input=text, timeout=1800)
     rc3, r, er = sh([os.path.join(BIN, 'ptr_diff_rel')], input=text, timeout=1800)
+    # the same script with a second registered thread holding the epoch: every probe is a repeated quiescent state of one epoch
+    rc4, a2, ea2 = sh([os.path.join(BIN, 'ptr_diff_dbg'), 'multi'], input=text, timeout=1800)
     rc2, m, em = sh([os.path.join(OCAML, 'ptr_run')], input=text, timeout=1800)
     A, R, M = a.splitlines(), r.splitlines(), m.splitlines()
     if replay:
         for l, x, y in zip(lines, A, M):
             print('%s\n   impl : %s\n   model: %s' % (l, x, y))
         return 0
-    for name, rc, out, e in (('assertion-enabled', rc1, A, ea), ('NDEBUG', rc3, R, er)):
+    A2 = a2.splitlines()
+    for name, rc, out, e in (('assertion-enabled', rc1, A, ea), ('NDEBUG', rc3, R, er), ('assertion-enabled, two registered threads', rc4, A2, ea2)):
         if rc != 0 or len(out) != len(lines) + 1:
             at = len(out)
             sp = [s for s in spans if s[0] <= at < s[1]] or [spans[-1]]
@@ -149,6 +152,9 @@ def check(pid, tier, replay=None):
                     prob = ('property', 'registry %s differs from the live non-null wrappers %s' % (regs, want))
                 elif 'Q=' in A[j] and ((('Q=accepted' in A[j]) != (not want))):
                     prob = ('property', 'quiescent() verdict %s with live non-null wrappers %s' % (A[j].split('Q=')[1], want))
+                elif 'Q=' in A2[j] and ((('Q=accepted' in A2[j]) != (not want))):
+                    prob = ('property', 'with a second registered thread (repeated quiescent state of one epoch): quiescent() verdict %s with '
+                                        'live non-null wrappers %s' % (A2[j].split('Q=')[1], want))
                 elif A[j] != M[j]:
                     prob = ('correspondence', 'impl %s / model %s' % (A[j][:160], M[j][:160]))
             if prob:
@@ -164,7 +170,7 @@ def check(pid, tier, replay=None):
                                       {'kind': 'correspondence', 'ops': lines[lo:j + 1], 'broken': 'ptr_diff vs extracted PtrModel on GenPtrMethods'},
                                       found_input=False)
                 break
-    if A[-1] != 'SPAN ok' or R[-1] != 'SPAN ok':
+    if A[-1] != 'SPAN ok' or R[-1] != 'SPAN ok' or A2[-1] != 'SPAN ok':
         res.violation('qsbr_ptr_span does not yield the elements / size of the span it was built from', {'kind': 'property-on-implementation',
                                                                                                         'ops': ['SPAN']})
     if not res.proof_ok and not res.violations:
